@@ -13,5 +13,19 @@ package types
 //@   trusted
 //@   ensures (err == nil) == distParamsValid(snap(p))
 
+//@ // ---- C20: entry points under the no-panic sweep (no functional claim here: they must not panic for any field values) ----
+//@ func (msg MsgUpdateParams) ValidateBasic() (r0)
+//@   requires msg != nil
+//@   prop C20
+//@ func (msg MsgUpdateSubDistributorBurnShareParam) ValidateBasic() (r0)
+//@   requires msg != nil
+//@   prop C20
+//@ func (msg MsgUpdateSubDistributorDestinationShareParam) ValidateBasic() (r0)
+//@   requires msg != nil
+//@   prop C20
+//@ func (msg MsgUpdateSubDistributorParam) ValidateBasic() (r0)
+//@   requires msg != nil
+//@   prop C20
+
 //@ // ---- declared effects (checked per call instruction by the effect checker; anything not listed is effect-free) ----
 //@ effects SetMaccPerms global.write
